@@ -1265,7 +1265,10 @@ class Config:  # pylint: disable=too-many-instance-attributes
         :param: additional keyword arguments for :meth:`dumps`
         """
         content = self.dumps(format, **kwargs)
-        if not isinstance(content, (bytes, bytearray, memoryview)):
+        if isinstance(content, memoryview):
+            # (a view that is not contiguous cannot be written as it is)
+            content = content.tobytes()
+        if not isinstance(content, (bytes, bytearray)):
             # opening the destination truncates it: never do that for content that cannot be written
             raise TypeError(
                 "a bytes-like object is required, the %s formatter returned '%s'"
